@@ -854,15 +854,16 @@ def r1_score_order(run):
                 continue
             attrs, ops = roles.features(e)
             role = _role_of(attrs, ops)
-            if role is None and attrs == {'params'}:
-                # not one of the spelled-out derivations: decide on the model whether it IS the exact-parameter
-                # criterion; in that criterion's own position a modelled expression that is not is a look-alike (b)
+            if attrs == {'params'}:
+                # whatever the spelling, decide on the model whether this IS the exact-parameter criterion; in that
+                # criterion's own position a modelled expression that is not is a look-alike, reported in (b)
                 try:
-                    if exact_verdict(ret, e).exact or i == 2:
+                    if exact_verdict(ret, e).exact or (role is None and i == 2):
                         role = 2
                 except _OutOfModel as why:
-                    raise UnknownIdiom('match_score: component %d (%s) depends on %s via %s - no known role (%s)' % (
-                        i + 1, short(e, 40), sorted(attrs), sorted(ops), why))
+                    if role is None:
+                        raise UnknownIdiom('match_score: component %d (%s) depends on %s via %s - no known role (%s)' % (
+                            i + 1, short(e, 40), sorted(attrs), sorted(ops), why))
             if role is None:
                 raise UnknownIdiom('match_score: component %d (%s) depends on %s via %s - no known role' % (
                     i + 1, short(e, 40), sorted(attrs), sorted(ops)))
@@ -2507,6 +2508,263 @@ def r6_memo_results_immutable(run):
         raise AnchorError('no call site binding the result of a memoised helper found')
 
 
+# ---------------------------------------------------------------------------
+# R7 the resolver is asked about the content type itself (added after seeded
+# change s3-c11-3: WSGI get_media() resolved by the bare type, ASGI did not)
+# ---------------------------------------------------------------------------
+
+R7_SITES = (
+    ('request', 'falcon.request.Request.get_media', 'falcon.asgi.request.Request.get_media'),
+    ('response', 'falcon.response.Response.render_body', 'falcon.asgi.response.Response.render_body'),
+)
+CONTENT_TYPE = 'content_type'
+DEFAULT_ATTR = 'default_media_type'
+HANDLERS_ATTR = 'media_handlers'
+
+# Frozen table: str methods whose result is no longer the content type as it was received.  The parameters are part of
+# what the matching rule looks at (criteria 3 and 4, and "a shared parameter with another value does not match"), so a
+# handler resolved from the result is not the one the mapping designates for the content type.  (strip()/lstrip()/
+# rstrip() on the content type itself are NOT in the table: the matcher ignores outer whitespace - unknown idiom.)
+CT_TRANSFORMS = {
+    'partition': 'cuts at a separator (drops the parameters)',
+    'rpartition': 'cuts at a separator',
+    'split': 'cuts at a separator (drops the parameters)',
+    'rsplit': 'cuts at a separator',
+    'lower': 'changes the case of parameter values',
+    'upper': 'changes the case of parameter values',
+    'casefold': 'changes the case of parameter values',
+    'title': 'changes the case',
+    'capitalize': 'changes the case',
+    'swapcase': 'changes the case',
+    'replace': 'rewrites the value',
+    'translate': 'rewrites the value',
+    'removeprefix': 'drops a part',
+    'removesuffix': 'drops a part',
+}
+# falcon helpers that split a header value into (bare value, parameters)
+CT_SPLITTERS = {MEDIATYPES + '.parse_header': 'splits off the parameters'}
+
+
+class _CtArg:
+    """Classification of an argument expression relative to `<self>.content_type`:
+    exact       the attribute read itself, or a local bound only to that
+    fallback    the content type or else a constant (`ct or ''`) - only understood as the receiver of a transform
+    transformed derived from the content type through CT_TRANSFORMS / CT_SPLITTERS / subscripting
+    const       folds to a constant
+    unknown     anything else"""
+
+    def __init__(self, p, f: Func, call: ast.Call):
+        self.p, self.f = p, f
+        a = f.node.args
+        pos = a.posonlyargs + a.args
+        if not pos:
+            raise UnknownIdiom('%s takes no self' % f.qual)
+        self.selfname = pos[0].arg
+        self.how: List[str] = []
+        self.call = call
+        self.prior: Dict[str, str] = {}
+
+    def _rebound(self, name: str, binds, d) -> str:
+        """A local with several bindings (`ct = self.content_type` ... `if ct: ct = ct.lower()`): the bindings that can
+        reach the resolver call without being overwritten decide; a binding in terms of the name itself is read
+        against the kind of the plain ones."""
+        def mentions(v):
+            return any(isinstance(x, ast.Name) and x.id == name for x in ast.walk(v))
+        base = {self.classify(v, d) for _, v in binds if not mentions(v)}
+        if len(base) != 1 or not base <= {'exact', 'transformed'}:
+            return 'unknown'
+        self.prior[name] = base.pop()
+        try:
+            cfg = cfg_of(self.f, self.p)
+            goal = [n.id for n in cfg.live_nodes() if any(x is self.call for x in n.walk())]
+            if not goal:
+                return 'unknown'
+            bnodes = {id(s): [nid for nid in cfg.nodes_for(s)] for s, _ in binds}
+            kinds = set()
+            for s, v in binds:
+                others = {nid for s2, _ in binds if s2 is not s for nid in bnodes[id(s2)]}
+                starts = [y for nid in bnodes[id(s)] for (y, l) in cfg.succ[nid] if l != 'exc']
+                if bnodes[id(s)] and flow.find_path(cfg, starts, goal, avoid_nodes=others) is not None:
+                    kinds.add(self.classify(v, d))
+        finally:
+            del self.prior[name]
+        if kinds == {'exact'}:
+            return 'exact'
+        if 'transformed' in kinds and kinds <= {'exact', 'transformed'}:
+            return 'transformed'
+        return 'unknown'
+
+    def classify(self, e, depth=0) -> str:
+        if depth > 12:
+            return 'unknown'
+        e = _unwrap_cast(e)
+        d = depth + 1
+        if isinstance(e, ast.Attribute) and e.attr == CONTENT_TYPE and isinstance(e.value, ast.Name) and e.value.id == self.selfname:
+            return 'exact'
+        if isinstance(e, ast.Name):
+            binds = _assignments(self.f.node, e.id)
+            if not binds:
+                v = self.p.fold(self.f.module, e, None, self.f)
+                return 'const' if v is not UNKNOWN else 'unknown'
+            if any(v is None for _, v in binds):
+                return 'unknown'
+            if e.id in self.prior:
+                return self.prior[e.id]
+            if len(binds) == 1:
+                return self.classify(binds[0][1], d)
+            return self._rebound(e.id, binds, d)
+        if isinstance(e, ast.Constant):
+            return 'const'
+        if isinstance(e, (ast.BoolOp, ast.IfExp)):
+            parts = e.values if isinstance(e, ast.BoolOp) else [e.body, e.orelse]
+            kinds = {self.classify(x, d) for x in parts}
+            if 'transformed' in kinds and kinds <= {'transformed', 'exact', 'fallback', 'const'}:
+                return 'transformed'
+            if kinds == {'exact'}:
+                return 'exact'
+            if 'exact' in kinds and kinds <= {'exact', 'fallback', 'const'}:
+                return 'fallback'
+            return 'const' if kinds == {'const'} else 'unknown'
+        if isinstance(e, ast.Subscript):
+            k = self.classify(e.value, d)
+            if k in ('exact', 'fallback', 'transformed'):
+                if k != 'transformed':
+                    self.how.append('%s: a slice or an element of the content type' % short(e, 50))
+                return 'transformed'
+            return 'unknown'
+        if isinstance(e, ast.Call):
+            if isinstance(e.func, ast.Attribute):
+                k = self.classify(e.func.value, d)
+                if k == 'transformed':
+                    return 'transformed'
+                if k in ('exact', 'fallback'):
+                    if e.func.attr in CT_TRANSFORMS:
+                        self.how.append('.%s() %s' % (e.func.attr, CT_TRANSFORMS[e.func.attr]))
+                        return 'transformed'
+                    return 'unknown'
+            t = self.p.resolve_callable(self.f, e.func)
+            if isinstance(t, Func) and t.qual in CT_SPLITTERS and e.args and not e.keywords:
+                if self.classify(e.args[0], d) in ('exact', 'fallback', 'transformed'):
+                    self.how.append('%s() %s' % (t.name, CT_SPLITTERS[t.qual]))
+                    return 'transformed'
+            return 'unknown'
+        v = self.p.fold(self.f.module, e, None, self.f)
+        return 'const' if v is not UNKNOWN else 'unknown'
+
+
+def _norm_chain(f: Func, e, depth=0) -> Optional[str]:
+    """dotted text of an attribute chain, locals bound once to a chain expanded"""
+    e = _unwrap_cast(e)
+    if depth > 8:
+        return None
+    if isinstance(e, ast.Attribute):
+        base = _norm_chain(f, e.value, depth + 1)
+        return None if base is None else '%s.%s' % (base, e.attr)
+    if isinstance(e, ast.Name):
+        binds = _assignments(f.node, e.id)
+        if not binds:
+            return e.id
+        if len(binds) == 1 and binds[0][1] is not None:
+            return _norm_chain(f, binds[0][1], depth + 1)
+    return None
+
+
+def r7_resolve_by_content_type(run):
+    """Request.get_media() (both flavours) - and Response.render_body() - hand the resolver the content type as it
+    is: the matching rule of R1/R4 (exact parameter match, number of matching parameters, a shared parameter with
+    another value does not match) is only applied to what is passed in.  W: handlers under 'application/json' and
+    'application/json; version=2'; a request with Content-Type 'application/json; version=2' resolved by the bare
+    type gets the plain handler; with only 'text/plain; charset=utf-8' registered, 'text/plain; charset=latin-1'
+    is accepted instead of answered with 415."""
+    p = run.project
+    cr = p.func(HANDLERS + '._create_resolver')
+    res = single(list(cr.nested.values()), 'nested resolver function', cr.qual)
+    rparams = _param_names(res, skip_self=False)
+    if len(rparams) != 3:
+        raise UnknownIdiom('resolver takes %s' % rparams)
+    ra = res.node.args
+    if ra.vararg or ra.kwarg or ra.kwonlyargs or len(ra.defaults) != 1:
+        raise UnknownIdiom('resolver signature %s' % short(ra, 80))
+    rnf_default = p.fold(res.module, ra.defaults[0], None, res)
+    if not isinstance(rnf_default, bool):
+        raise UnknownIdiom('resolver: default of %s does not fold to a bool' % rparams[2])
+
+    for side, wq, aq in R7_SITES:
+        forms = []
+        flagged = False
+        for q in (wq, aq):
+            f = p.func(q)
+            run.use(f)
+            calls = [c for c in walk_self(f.node) if isinstance(c, ast.Call) and isinstance(c.func, ast.Attribute) and c.func.attr == RESOLVER]
+            if not calls:
+                raise AnchorError('%s: no call of <handlers>.%s(...)' % (q, RESOLVER))
+            for c in calls:
+                recv = _norm_chain(f, c.func.value)
+                if recv is None or not recv.endswith('.' + HANDLERS_ATTR):
+                    raise UnknownIdiom('%s: receiver of %s' % (q, short(c, 80)))
+                base = recv[:-len(HANDLERS_ATTR) - 1]
+                if any(isinstance(a, ast.Starred) for a in c.args) or any(k.arg is None for k in c.keywords) or len(c.args) > 3:
+                    raise UnknownIdiom('%s: arguments of %s' % (q, short(c, 80)))
+                args = dict(zip(rparams, c.args))
+                for k in c.keywords:
+                    if k.arg not in rparams or k.arg in args:
+                        raise UnknownIdiom('%s: arguments of %s' % (q, short(c, 80)))
+                    args[k.arg] = k.value
+                if rparams[0] not in args or rparams[1] not in args:
+                    raise UnknownIdiom('%s: arguments of %s' % (q, short(c, 80)))
+                what_ct = 'the %s content type' % side
+
+                # (1) the requested type is the content type itself
+                ca = _CtArg(p, f, c)
+                k1 = ca.classify(args[rparams[0]])
+                if k1 in ('unknown', 'fallback'):
+                    raise UnknownIdiom('%s: media type argument %s of the resolver call' % (q, short(args[rparams[0]], 60)))
+                if k1 != 'exact':
+                    flagged = True
+                run.check(k1 == 'exact',
+                          '%s resolves the handler for %s as it is - the matching rule is applied to the type AND its parameters, '
+                          'not to a cut or rewritten form' % (f.name, what_ct), f, c, where=f.loc(c),
+                          witness=(['argument %s' % short(args[rparams[0]], 80)] + ca.how) if k1 == 'transformed' else
+                          ['argument %s is a constant, not %s.%s' % (short(args[rparams[0]], 60), ca.selfname, CONTENT_TYPE)],
+                          runtime_witness="handlers under 'application/json' and 'application/json; version=2': Content-Type "
+                                          "'application/json; version=2' gets the plain handler; with only 'text/plain; charset=utf-8' "
+                                          "registered, 'text/plain; charset=latin-1' is accepted instead of answered with 415")
+
+                # (2) the fallback is the default media type of the same options object
+                a2 = args[rparams[1]]
+                n2 = _norm_chain(f, a2)
+                k2 = 'default' if n2 == '%s.%s' % (base, DEFAULT_ATTR) else _CtArg(p, f, c).classify(a2)
+                if k2 not in ('default', 'const', 'exact', 'transformed'):
+                    raise UnknownIdiom('%s: default argument %s of the resolver call' % (q, short(a2, 60)))
+                if k2 != 'default':
+                    flagged = True
+                run.check(k2 == 'default', "%s falls back to the options' %s when there is no %s" % (f.name, DEFAULT_ATTR, what_ct[4:]),
+                          f, c, where=f.loc(c), witness=['argument %s, expected %s.%s' % (short(a2, 60), base, DEFAULT_ATTR)],
+                          runtime_witness='with default_media_type set to another registered type, a message without Content-Type '
+                                          'is handled by the wrong handler')
+
+                # (3) no match stays a 415
+                rnf = rnf_default
+                if rparams[2] in args:
+                    rnf = p.fold(f.module, args[rparams[2]], None, f)
+                    if not isinstance(rnf, bool):
+                        raise UnknownIdiom('%s: %s argument %s of the resolver call' % (q, rparams[2], short(args[rparams[2]], 60)))
+                if not rnf:
+                    flagged = True
+                run.check(rnf is True, '%s lets the resolver answer 415 when no handler matches' % f.name, f, c, where=f.loc(c),
+                          runtime_witness='an unsupported content type ends in AttributeError on None (500) instead of 415')
+                forms.append((q, (k1, k2, rnf), c))
+        # (4) the WSGI and ASGI flavours ask the same question
+        by_q: Dict[str, List[tuple]] = {}
+        for q, form, c in forms:
+            by_q.setdefault(q, []).append(form)
+        if sorted(by_q[wq]) == sorted(by_q[aq]):
+            run.ok('%s: the WSGI and ASGI flavours pass the same (normalised) arguments to the resolver' % side, p.func(aq).loc(),
+                   '%s / %s' % (wq.rsplit('.', 2)[-2] + '.' + wq.rsplit('.', 1)[-1], aq))
+        elif not flagged:
+            raise UnknownIdiom('%s: resolver calls of %s and %s differ in a way the rule does not understand' % (side, wq, aq))
+
+
 class _ModFunc:
     """minimal Func stand-in for module-level resolution"""
 
@@ -2530,3 +2788,4 @@ def check(run):
     run.rule('R4', _safe(r4_resolution), 'resolver: default fallback, exact first, best match over current keys, 415 iff unmatched and asked', floor=8)
     run.rule('R5', _safe(r5_client_negotiation), 'client_accepts/client_prefers map ValueError to False/None', floor=5)
     run.rule('R6', _safe(r6_memo_results_immutable), 'values handed out by memoised parsing helpers are never mutated by their callers', floor=1)
+    run.rule('R7', _safe(r7_resolve_by_content_type), 'get_media()/render_body() of both flavours resolve by the content type itself and the options default', floor=12)
